@@ -295,6 +295,9 @@ let game_snap (g : game) = Printf.sprintf "%s | hist %s" (snap_of g.gboard) (Str
 
 (* cumulative perft of the rules (move sequences of lengths 1..d+1), remembered per position and ply:
    the same position is counted under several pool sizes and depths *)
+(* the oracle of a search depends on the position (clocks and repetition top included: all in the
+   snapshot) and the depth only: the same position is searched under many pools and schedules *)
+let search_memo : (string * int, (cmove * z) list res) Hashtbl.t = Hashtbl.create 256
 let perft_memo : (string * int, int) Hashtbl.t = Hashtbl.create 256
 let perft_total (b : board) (d : int) : int =
   let id = snap_of b in
@@ -437,8 +440,11 @@ let exec (op : string) : unit =
             (* depth >= 3 inside the wide domain: full-window alpha-beta per root move, equal to the plain
                minimax list by ReachWide.root_values_ab_eq_wide (pinned in props/C08.v); otherwise the
                plain minimax itself *)
-            let rv = if !sdepth >= 3 && inw then root_values_ab tbl rk bs (nat_of_int !sdepth) b
-                     else root_values tbl rk bs (nat_of_int !sdepth) b in
+            let rv () = if !sdepth >= 3 && inw then root_values_ab tbl rk bs (nat_of_int !sdepth) b
+                        else root_values tbl rk bs (nat_of_int !sdepth) b in
+            let rv = match Hashtbl.find_opt search_memo (snap_of b, !sdepth) with
+              | Some r -> r
+              | None -> let r = rv () in Hashtbl.replace search_memo (snap_of b, !sdepth) r; r in
             match rv with
               | Ok [] -> tag ^ " Err NoAvailableMoves"
               | Ok vs ->
